@@ -65,6 +65,20 @@ InitsGeneric ==
         <<Hd("IN", "MX", "NONE", <<i(1, 1), i(2, 3)>>, 300), Hd("IN", "MX", "NONE", <<i(2, 1), i(1, 3), i(3, 3)>>, 600), E>>,
         <<Hd("IN", "MX", "NONE", <<i(1, 3)>>, 600), Hd("IN", "MX", "NONE", <<i(1, 1)>>, 300),
           Hd("IN", "MX", "NONE", <<i(2, 3), i(1, 1)>>, 0)>>}
+(* world "dyn": a type without built-in meaning ("DYN": an unassigned type code, its records
+   are RFC 3597 generic records) that the script may register at run time, as a singleton
+   type or not, before or after its first use *)
+ItemsDyn == Uni("IN", "DYN", "NONE")
+InitsDyn ==
+    LET i(c, v) == It("IN", "DYN", "NONE", c, v)
+        E == Hd("IN", "DYN", "NONE", <<>>, 0)
+    IN {<<E, E, E>>,
+        <<Hd("IN", "DYN", "NONE", <<i(1, 1)>>, 300), Hd("IN", "DYN", "NONE", <<i(2, 1)>>, 600), E>>,
+        <<Hd("IN", "DYN", "NONE", <<i(1, 1), i(2, 1)>>, 300), Hd("IN", "DYN", "NONE", <<i(2, 2)>>, 600),
+          Hd("IN", "DYN", "NONE", <<i(3, 1)>>, 0)>>}
+InitsDyn2 ==
+    LET i(c, v) == It("IN", "DYN", "NONE", c, v)
+    IN {<<Hd("IN", "DYN", "NONE", <<>>, 0), Hd("IN", "DYN", "NONE", <<i(2, 1)>>, 600), Hd("IN", "DYN", "NONE", <<i(1, 1)>>, 300)>>}
 (* worlds "cname", "soa": singleton kinds *)
 ItemsCNAME == Uni("IN", "CNAME", "NONE")
 InitsCNAME == SingleInits("IN", "CNAME", "NONE")
